@@ -1570,3 +1570,78 @@ Lemma front_is_archive c dirs (U : list xsol) : Forall (sol_wf xq xltb xzero dir
 Proof.
   intro H. symmetry. exact (pareto_archive_char xq xltb xneg xzero xq_laws c dirs U H).
 Qed.
+
+(* ------------------------------------------------------------------------- *)
+(* Part J : why SPEA2's fitness may be compared as the pair (raw, d_k^2)      *)
+(* ------------------------------------------------------------------------- *)
+(* In REAL arithmetic  fitness = raw + 1/(sqrt(d2) + 2)  with raw a natural number and d2 >= 0 the squared
+   k-th nearest distance.  The density lies in (0, 1/2], so the integer part decides first and, at equal raw
+   fitness, the LARGER distance gives the smaller fitness; fitness < 1 exactly when raw = 0.  (These three facts
+   use the real-number axioms of the standard library; nothing else in this file does.) *)
+From Coq Require Import Reals Lra Qreals.
+
+Definition fitR (raw : nat) (d2 : R) : R := (INR raw + / (sqrt d2 + 2))%R.
+
+Lemma density_bounds (d : R) : (0 <= d)%R -> (0 < / (sqrt d + 2) <= / 2)%R.
+Proof.
+  intro Hd. pose proof (sqrt_pos d) as Hs. split.
+  - apply Rinv_0_lt_compat. lra.
+  - apply Rinv_le_contravar; lra.
+Qed.
+
+Lemma INR_succ_le (a b : nat) : (a < b)%nat -> (INR a + 1 <= INR b)%R.
+Proof. intro H. rewrite <- S_INR. apply le_INR. lia. Qed.
+
+Theorem fitR_lt_iff r1 r2 d1 d2 : (0 <= d1)%R -> (0 <= d2)%R ->
+  ((fitR r1 d1 < fitR r2 d2)%R <-> (r1 < r2)%nat \/ (r1 = r2 /\ (d2 < d1)%R)).
+Proof.
+  intros H1 H2. unfold fitR.
+  destruct (density_bounds d1 H1) as [A1 B1]. destruct (density_bounds d2 H2) as [A2 B2].
+  pose proof (sqrt_pos d1) as S1. pose proof (sqrt_pos d2) as S2.
+  assert (Hhalf : (/ 2 < 1)%R) by lra.
+  split.
+  - intro H. destruct (Nat.lt_trichotomy r1 r2) as [L|[E|G]]; [now left| |].
+    + right. split; [exact E|]. subst r2.
+      assert (H' : (/ (sqrt d1 + 2) < / (sqrt d2 + 2))%R) by lra.
+      apply sqrt_lt_0_alt.
+      destruct (Rlt_le_dec (sqrt d2) (sqrt d1)) as [Hlt|Hle]; [exact Hlt|exfalso].
+      assert (C : (/ (sqrt d2 + 2) <= / (sqrt d1 + 2))%R) by (apply Rinv_le_contravar; lra).
+      lra.
+    + exfalso. pose proof (INR_succ_le r2 r1 G). lra.
+  - intros [L|[E L]].
+    + pose proof (INR_succ_le r1 r2 L). lra.
+    + subst r2. apply Rplus_lt_compat_l.
+      apply Rinv_lt_contravar.
+      * apply Rmult_lt_0_compat; lra.
+      * apply Rplus_lt_compat_r. apply sqrt_lt_1_alt. lra.
+Qed.
+
+Theorem fitR_lt1_iff r d : (0 <= d)%R -> ((fitR r d < 1)%R <-> r = 0%nat).
+Proof.
+  intro Hd. unfold fitR. destruct (density_bounds d Hd) as [A B]. split.
+  - intro H. destruct r as [|r]; [reflexivity|exfalso].
+    rewrite S_INR in H. pose proof (pos_INR r). lra.
+  - intros ->. simpl. lra.
+Qed.
+
+(* the model's comparisons are exactly these *)
+Theorem fit_lt_is_real_order (a b : fit) : (0 <= f_dk2 a)%Q -> (0 <= f_dk2 b)%Q ->
+  (fit_lt a b = true <-> (fitR (f_raw a) (Q2R (f_dk2 a)) < fitR (f_raw b) (Q2R (f_dk2 b)))%R).
+Proof.
+  intros Ha Hb.
+  assert (Ra : (0 <= Q2R (f_dk2 a))%R) by (replace 0%R with (Q2R 0) by (unfold Q2R; simpl; lra); now apply Qle_Rle).
+  assert (Rb : (0 <= Q2R (f_dk2 b))%R) by (replace 0%R with (Q2R 0) by (unfold Q2R; simpl; lra); now apply Qle_Rle).
+  rewrite (fitR_lt_iff _ _ _ _ Ra Rb). unfold fit_lt.
+  rewrite orb_true_iff, andb_true_iff, Nat.ltb_lt, Nat.eqb_eq, Qltb_lt.
+  split; (intros [H|[E H]]; [now left|right; split; [exact E|]]).
+  - now apply Qlt_Rlt.
+  - now apply Rlt_Qlt.
+Qed.
+
+Theorem fit_lt1_is_real (a : fit) : (0 <= f_dk2 a)%Q ->
+  (fit_lt1 a = true <-> (fitR (f_raw a) (Q2R (f_dk2 a)) < 1)%R).
+Proof.
+  intro Ha.
+  assert (Ra : (0 <= Q2R (f_dk2 a))%R) by (replace 0%R with (Q2R 0) by (unfold Q2R; simpl; lra); now apply Qle_Rle).
+  rewrite (fitR_lt1_iff _ _ Ra). unfold fit_lt1. apply Nat.eqb_eq.
+Qed.
